@@ -290,6 +290,33 @@ pub fn c06() -> i32 {
             deaths3 = deaths3.into_iter().step_by(2).collect();
         }
         scns.extend(deaths3);
+        // a player drops while the host's confirmed frame is still below the last frame the host
+        // holds from it: the host ticks at half rate (the dying peer runs ahead), or a third peer
+        // lags behind
+        for (tp, slow) in [("1+1", 0usize), ("1+2", 0), ("1+1+1", 2), ("1+1+1", 0)] {
+            let mut ds = crate::props::drop::death_scenarios("c06-death-ahead", &[tp], &[8, 3], &[0, 1], &[false], if t { 8..28 } else { 10..18 }, 0, &[(50, 100)], &[true], CK_C02 | CK_C04);
+            for (i, s) in ds.iter_mut().enumerate() {
+                s.peers[slow].tick_every = 2;
+                s.specs[0].catchup = 1 + i % 2;
+                s.name = format!("{} peer {slow} ticks every 2nd round", s.name);
+                s.probe += 40;
+                // every other scenario: the host drops the player itself instead of waiting for
+                // the timeout (the peer is alive and ahead)
+                // (two-peer sessions only: with three peers an explicit drop of a live peer makes
+                // the survivors disagree about the cut-off, C10's known finding)
+                if (i / 2) % 2 == 1 && s.peers.len() == 2 {
+                    let r = s.script[0].round;
+                    let h = s.peers[1].locals[0];
+                    s.script.clear();
+                    s.script.push(ScriptItem { round: r, node: 0, action: Action::Disconnect { handle: h } });
+                    s.name = format!("{} explicit disconnect_player({h})@{r}", s.name);
+                }
+            }
+            if !t {
+                ds = ds.into_iter().step_by(2).collect();
+            }
+            scns.extend(ds);
+        }
         // the host disconnects one of two spectators explicitly (disconnect_player with the
         // spectator's handle): the players and the other spectator must not notice, and what the
         // disconnected spectator was handed until then equals the host's sequence
